@@ -73,12 +73,17 @@ class CarriedError(ValueError):
     """custom exception class that is registered with the serializers (dict-to-class), so it can cross the wire"""
 
 
+class CustomWireError(Exception):
+    """application exception with a converter pair of its own (register_class_to_dict / register_dict_to_class): its wire form is
+    whatever the application chose - here without any of Pyro's own marker members"""
+
+
 class UncarriedError(ValueError):
     """custom exception class unknown to the deserializers"""
 
 
 FAIL_KINDS = ("value", "key", "zero", "naming", "protocol", "valueattr", "carried", "uncarried", "stopiter", "type", "attr",
-              "runtime", "lookup")
+              "runtime", "lookup", "customwire")
 
 
 class Ref(object):
@@ -142,6 +147,8 @@ class Ref(object):
             raise e
         if kind == "uncarried":
             raise UncarriedError(msg)
+        if kind == "customwire":
+            raise CustomWireError(msg, code)
         if kind == "stopiter":
             raise StopIteration(msg)
         if kind == "type":
@@ -232,6 +239,8 @@ def _setup():
     SerializerBase.register_dict_to_class(
         CarriedError.__module__ + "." + CarriedError.__name__,
         lambda classname, d: SerializerBase.make_exception(CarriedError, d))
+    SerializerBase.register_class_to_dict(CustomWireError, lambda e: {"__class__": "c11.CustomWireError", "text": e.args[0], "code": e.args[1]})
+    SerializerBase.register_dict_to_class("c11.CustomWireError", lambda classname, d: CustomWireError(d["text"], d["code"]))
     live.quiet_logs()
     _registered = True
 
@@ -720,7 +729,7 @@ benign_call = st.one_of(st.just(["view", [], {}]), _total, _note, _pair, _pairs,
                         st.just(["snapshot", [], {}]))
 
 _raise = _fixed("fail_if", st.sampled_from([True, 1, "x", [0], -1.5, {"a": None}]),
-                st.sampled_from(FAIL_KINDS + ("valueattr", "valueattr", "carried", "carried", "uncarried", "stopiter")), messages, small_ints)
+                st.sampled_from(FAIL_KINDS + ("valueattr", "valueattr", "carried", "carried", "uncarried", "stopiter", "customwire", "customwire")), messages, small_ints)
 _refused = st.tuples(st.sampled_from(REFUSED_NAMES + ("hidden", "_private", "__secret__", "incr.x", "snapshot.log", "incr.x", "secret_prop", "open_prop", "secret_prop", "open_prop")), st.lists(small_values, max_size=2), st.dictionaries(kw_names, small_values, max_size=1)).map(list)
 _missing = _fixed("get", st.sampled_from(["missing", "☃", -99, None]))
 _signature = st.tuples(st.integers(0, 6), small_values).map(
